@@ -259,6 +259,10 @@ def run(ctx):
         data, ind = S('data', type='dict'), S('indent', type='int')
         v, f = ev.call_function('paper_wallet.PaperWallet.json', [w], {'data': data, 'indent': ind}, facts=Facts().add(T.truth(data)))
         same_term(ob, v, T.raw_op('JSON', data, ind), 'json(data, indent) is json.dumps(data, indent=indent)', fj.where)
+    # the file route of the JSON rendering: export_wallet / pprint write the JSON of the data they are given (seed C06-O:
+    # export_wallet stops forwarding `data`, the file holds a freshly generated default wallet)
+    from .C20 import check_sinks
+    check_sinks(ctx, 'C06.SINKS(=C20)')
     # every record is produced through a path string the wallet prints and parses back (determine_node_version_int ->
     # Bip32Path.parse(str(node))): a hardened number the printer can emit must be accepted by the parser, else whole
     # account blocks are refused instead of produced
